@@ -19,8 +19,8 @@ after its EXIT), `valid`, `flags` (NORECORD / FILTERED / NOTRACE) and `orig_dept
 
 Not modelled: `func_stack` overflow beyond `hdr.max_stack`, exec/setjmp/longjmp/fork
 fixups, LOST/EVENT records, location/size/caller filters and depth/time/trace_on/
-trace_off/hide triggers, kernel and perf records, 64-bit wrap of time differences
-(`Nat` subtraction truncates instead).  Function names are function addresses (one
+trace_off/hide triggers, kernel and perf records.  Time differences are taken on uint64_t
+(`sub64`).  Function names are function addresses (one
 symbol per address), a UFTRACE_FUNCS entry is the address of the function it names;
 argument payloads are opaque tokens.
 
@@ -113,6 +113,10 @@ def startSlots (s : TaskSt) (r : Rec) : Nat → Frame :=
     else if i < firstCount r then { (s.slots i) with total := r.time, valid := true }
     else s.slots i
 
+/-- `a - b` on uint64_t (for time stamps below 2^64): an EXIT that is older than its ENTRY gives a
+    duration near 2^64, as in the code (fstack.c `delta = rstack->time - fstack->total_time`) -/
+def sub64 (a b : Nat) : Nat := if b ≤ a then a - b else a + 18446744073709551616 - b
+
 /-- the ENTRY / EXIT branches of fstack_account_time; `c` and `sl` are the count and
     slots after the first-record block -/
 def accountSlots (c : Nat) (sl : Nat → Frame) (r : Rec) : Nat → Frame :=
@@ -121,7 +125,7 @@ def accountSlots (c : Nat) (sl : Nat → Frame) (r : Rec) : Nat → Frame :=
     else
       setSlot sl (c - 1)
         { (sl (c - 1)) with
-          total := if (sl (c - 1)).valid then r.time - (sl (c - 1)).total else 0
+          total := if (sl (c - 1)).valid then sub64 r.time (sl (c - 1)).total else 0
           valid := false }
   else setSlot sl c { (sl c) with addr := r.addr, total := r.time, valid := true }
 
@@ -356,7 +360,7 @@ def timeFilter (thr : Nat) : List Rec → List Rec → List Rec
       match pend with
       | [] => r :: timeFilter thr rs []
       | e :: p =>
-        if r.time - e.time < thr then timeFilter thr rs p
+        if sub64 r.time e.time < thr then timeFilter thr rs p
         else pend.reverse ++ r :: timeFilter thr rs []
 
 /-- read_user_stack: smallest head time, strict `<`, so the lowest task index wins ties -/
@@ -389,7 +393,7 @@ def readAll (thr : Nat) (ts : List (List Rec)) : List (Nat × Rec) :=
 /-- an EXIT callback closes the innermost open ENTRY callback of its task: same
     address, same depth, and its duration is the time between the two -/
 def closes (o c : Ctx) : Bool :=
-  o.tid == c.tid && o.addr == c.addr && o.depth == c.depth && c.time - o.time == c.dur
+  o.tid == c.tid && o.addr == c.addr && o.depth == c.depth && sub64 c.time o.time == c.dur
 
 def pairStep (opens : List Ctx) : Cb → Option (List Ctx)
   | .entry c => some (c :: opens)
@@ -416,7 +420,7 @@ def wfStep (stk : List (Nat × Nat)) (r : Rec) : Option (List (Nat × Nat)) :=
     if r.depth = stk.length then some ((r.addr, r.time) :: stk) else none
   else
     match stk with
-    | (a, t) :: rest => if a = r.addr ∧ r.depth = rest.length ∧ t ≤ r.time then some rest else none
+    | (a, _) :: rest => if a = r.addr ∧ r.depth = rest.length then some rest else none
     | [] => none
 
 def wfRun : List (Nat × Nat) → List Rec → Option (List (Nat × Nat))
